@@ -103,6 +103,8 @@ SPECS = {
             {"component": "lru", "args": [], "quick": 64, "thorough": 640},
             # handler level, real clock: an idle session is not used again (monitor only)
             {"component": "hnd", "args": ["--focus", "c15"], "quick": 24, "thorough": 200, "correspondence": False},
+            # handler histories with small configured capacities: the number of sessions held (monitor only)
+            {"component": "hnd", "args": ["--focus", "c13", "--fixes", "all"], "quick": 48, "thorough": 600, "correspondence": False},
         ],
         "trusted_base": [
             "modelled, not verified: std::time::Instant (time is an explicit argument of every model operation; the harness runs the real cache in real time with ttl 100 ms on a 40 ms grid, brackets every call with measured instants and reads the stored instants back through the hook LruTimeCache::verif_dump), hashlink::LinkedHashMap (modelled as a list in link order: insert/to_back move an entry to the back, pop_front removes the front)",
@@ -251,6 +253,9 @@ SPECS.update({
         "runner_vo": "Run/ServiceRun.v",
         "harness": [
             {"component": "service", "args": ["--focus", "c12"], "quick": 96, "thorough": 1200},
+            # the handler half of the property (Handler::verify_enr): real handler, handshakes with records that
+            # advertise the observed address, another host, the same host with another port, IPv4 and IPv6 (monitor only)
+            {"component": "hnd", "args": ["--focus", "c12", "--fixes", "all"], "quick": 64, "thorough": 800, "correspondence": False},
         ],
         "trusted_base": SVC_TB,
         "assumptions": [
